@@ -42,6 +42,7 @@ inductive UOp
   | quantify (u : Int) (qvars : List Key) (forall_ : Bool) -- `bdd.quantify` / `exist` / `forall`
   | compose (f : Int) (varSub : List (String × Int))      -- `bdd.compose(f, var_sub)` / `let` with nodes
   | rename (u : Int) (dvars : List (String × String))     -- `bdd.rename(u, dvars)` / `let` with names
+  | let_ (d : LetArg) (u : Int)                           -- `bdd.let(definitions, u)`
   | incref (u : Int)
   | decref (u : Int)
   | collectGarbage
@@ -64,6 +65,7 @@ def runOp : UOp → Mgr → Except Err Res × Mgr
   | .quantify u qvars fa, m => mapRes .ref (quantify u qvars fa m)
   | .compose f varSub, m => mapRes .ref (compose f varSub m)
   | .rename u dvars, m => mapRes .ref (rename u dvars m)
+  | .let_ d u, m => mapRes .ref (letOp d u m)
   | .incref u, m => mapRes (fun _ => .unit) (incref u m)
   | .decref u, m => mapRes (fun _ => .unit) (decref u m)
   | .collectGarbage, m => mapRes (fun _ => .unit) (collectGarbage none m)
@@ -77,7 +79,7 @@ def ledger : UOp → Mgr → (Nat → Nat) → (Nat → Nat)
 
 /-- the documented caller obligations that the code does not check -/
 def OpGuard (m : Mgr) (ext : Nat → Nat) : UOp → Prop
-  | .findOrAdd i v w => FoaGuard m i.toNat v w
+  | .findOrAdd i v w => 0 ≤ i → FoaGuard m i.toNat v w
   | .decref u => m.tbl.Mem u → 0 < ext u.natAbs
   | .declare name level =>
     match level with
@@ -305,6 +307,9 @@ theorem runOp_kept (m : Mgr) (ext : Nat → Nat) (h : GoodState m ext) (op : UOp
   | rename u dvars =>
     exact Or.inr (Or.inr ⟨rename_total m ext h.inv h.exact h.off u dvars,
       (rename_lite ext u dvars m hL).1.exact⟩)
+  | let_ d u =>
+    exact Or.inr (Or.inr ⟨letOp_total m ext h.inv h.exact h.off d u,
+      (letOp_lite ext d u m hL).1.exact⟩)
   | incref u =>
     have := incref_good m ext h u
     exact Or.inr (Or.inr ⟨incref_kept m h.inv u, this.1.exact⟩)
